@@ -14,6 +14,10 @@ Streams (both layouts: flat_hash.database and flat_hash.md5_cache)
           (every character handed to writelines is a crash point); (ii) HARD KILL: the store runs in
           a forked child with its real buffering and is killed by os._exit before each recorded call
           (create / buffered write / close / chown / chmod / rename), so text still in the buffer is lost
+  fault   call k of a store raises OSError(EIO) instead of being performed (every non-write call, some
+          writes) and the store's own error handling runs: what the store raised, cache[cpv], the
+          other entries and the listing                                 impl vs Model_C27.run_fault (A)
+          + the same oracle (B).  corpus/C27/*.json: fixed scenarios, run first.
           (B) directly on the observations: cache[cpv] is the old or the complete new result,
           other entries are unchanged, every listed key was listed before or is cpv with the
           complete new entry, no previously listed key disappears.
@@ -21,13 +25,14 @@ Streams (both layouts: flat_hash.database and flat_hash.md5_cache)
 
 from __future__ import annotations
 
+import json
 import math
 import os
 import shutil
 import tempfile
 
 from . import fsx
-from .common import Check, Err, cN, cbool, clist, cnat, copt, cpair, cstr, impl_call
+from .common import VERIF, Check, Err, cN, cbool, clist, cnat, copt, cpair, cstr, impl_call
 
 IMPORTS = ("From Coq Require Import List NArith ZArith Bool.\n"
            "From Verif Require Import Base.Val C18.Fs C27.Model_C27 C27.Spec_C27.")
@@ -622,11 +627,19 @@ def _run(chk, rng, root, ok):
     chk.count("parse", len(parse_cases))
 
     # ---------------------------------------------------------------- ops / crash
-    ops_cases, crash_cases, crash_bad = [], [], []
+    ops_cases, crash_cases, fault_cases, crash_bad = [], [], [], []
     n_hkill = 0
     n_store = chk.n(6, 24)
-    per_store = chk.n(16, 10 ** 6)
+    per_store = chk.n(12, 10 ** 6)
     pid = os.getpid()
+    plan = []
+    # corpus first: fixed scenarios (minimised past misses)
+    for cp in sorted((VERIF / "corpus" / "C27").glob("*.json")):
+        cj = json.loads(cp.read_text())
+        ce = {"kvs": [tuple(x) for x in cj["entry"]["kvs"]],
+              "ecl": None if cj["entry"]["ecl"] is None else [(n, tuple(d)) for n, d in cj["entry"]["ecl"]],
+              "chf": tuple(cj["entry"]["chf"])}
+        plan.append((cj["layout"], ce, cj["with_loc"], [(list(f), t) for f, t in cj["files"]], list(cj["target"]), True))
     for i in range(n_store):
         lay = "flat" if i % 2 == 0 else "md5"
         e = g_entry(rng, lay, True)
@@ -651,6 +664,8 @@ def _run(chk, rng, root, ok):
         else:
             target = rng.choice([["pkg-1"], ["a", "b", "pkg-1"]])
             files = [(["top-1"], other)]
+        plan.append((lay, e, with_loc, files, target, False))
+    for i, (lay, e, with_loc, files, target, full) in enumerate(plan):
         key = "/".join(target)
         vals_of = lambda: impl.values(e)  # noqa: E731
         build_pre(impl, with_loc, files)
@@ -688,6 +703,28 @@ def _run(chk, rng, root, ok):
             if k == n - 1 and i < 2:
                 chk.sample({"stream": "crash", "layout": lay, "cpv": key, "crash_before_call": repr(tr[k]),
                             "read": obs[0], "keys": obs[2]})
+        # ---- FAULTS: call k raises OSError(EIO) instead of being performed; the store's own error
+        #      handling runs.  Every non-write call, and a few (thorough: all) writes.
+        fpoints = [k for k in range(n) if tr[k].kind != "write"]
+        wpoints = [k for k in range(n) if tr[k].kind == "write"]
+        fpoints += wpoints if chk.thorough else rng.sample(wpoints, min(5 if full else 3, len(wpoints)))
+        for k in sorted(fpoints):
+            build_pre(impl, with_loc, files)
+            c = impl.cache(lay)
+            r = fsx.run_with_fault(lambda: c.__setitem__(key, vals_of()), root, k, mode="eio")
+            raised = None if r.exc is None else Err(type(r.exc).__name__)
+            obs = observe(impl, lay, target, files)
+            if tr[k].ok:        # (a call that fails anyway, the first open in a missing directory, has no model op)
+                mk = sum(1 for t in tr[:k] if t.ok)
+                fault_cases.append((base.replace("@K@", cnat(mk)).replace("@B@", "false"), [raised] + obs))
+            chk.nontrivial(("fault", i, k))
+            bad = crash_oracle(old, new, obs, target, files)
+            if bad:
+                crash_bad.append({"what": bad[0], "all": bad, "layout": lay, "pre_state": files,
+                                  "location_exists": with_loc, "cpv": key, "entry": e,
+                                  "crash_kind": "fault: call k raises OSError(EIO) instead of being performed; the store's error handling runs",
+                                  "crash_before_call": k, "call": repr(tr[k]), "store_raised": raised,
+                                  "observed": obs})
         # ---- the same store with its REAL buffering: system-call trace, then a hard kill
         #      (forked child, os._exit) before every recorded call
         build_pre(impl, with_loc, files)
@@ -720,6 +757,7 @@ def _run(chk, rng, root, ok):
                             "read": obs[0], "keys": obs[2]})
     chk.count("ops", len(ops_cases))
     chk.count("crash", len(crash_cases))
+    chk.count("fault", len(fault_cases))
     chk.cov["hard_kill_points"] = n_hkill
 
     # ---------------------------------------------------------------- evaluate model and spec in Coq
@@ -730,6 +768,7 @@ def _run(chk, rng, root, ok):
         ("parse", "layout * str", parse_cases, ["mismatches run_parse cases"]),
         ("ops", "crash_case", ops_cases, ["mismatches run_ops cases"]),
         ("crash", "crash_case", crash_cases, ["mismatches run_crash cases"]),
+        ("fault", "crash_case", fault_cases, ["mismatches run_fault cases"]),
     ]
     spec_bad = []
     found_input = bool(py_bad or crash_bad)
